@@ -60,6 +60,8 @@ type Ceremony struct {
 	N, T  int
 	// ReinitHashes: per node, the confirmation hash shown to the operator (reinitialised worlds).
 	ReinitHashes map[string][]byte
+	// MachinesRestartedFirst: the restored machines were stopped and reopened before the reinit operation.
+	MachinesRestartedFirst bool
 	// ReinitFile: the reinitialisation file as written by the dkg_reinitializer binary (tool-chain worlds).
 	ReinitFile string
 }
@@ -355,6 +357,17 @@ func ReinitFrom(old *Ceremony, commSeed uint64, adapt func(*types.ReDKG) (*types
 	}
 	ce := &Ceremony{W: w, N: old.N, T: old.T, Round: old.Round}
 	ce.ReinitHashes = captureReinitHashesHook(w)
+	if RestartRestoredMachines != nil && RestartRestoredMachines(commSeed) {
+		// the machines were restored from their mnemonics in an earlier session: they are stopped and
+		// reopened from their databases (keys and seed loaded, not set) before the reinitialisation reaches them
+		for i, nd := range w.Nodes {
+			if _, _, _, err := restartMachine(w, nd, old.Round, 5000+i); err != nil {
+				w.Close()
+				return nil, nil, fmt.Errorf("restart of a restored machine: %w", err)
+			}
+		}
+		ce.MachinesRestartedFirst = true
+	}
 	keys := map[string][]byte{}
 	for _, n := range w.Nodes {
 		keys[n.Name] = n.KeyPair.Pub
@@ -415,6 +428,10 @@ func ReinitFrom(old *Ceremony, commSeed uint64, adapt func(*types.ReDKG) (*types
 	}
 	return ce, re, nil
 }
+
+// RestartRestoredMachines, when set (C20), decides per reinitialisation whether the freshly restored
+// machines are restarted before they see the reinit operation.
+var RestartRestoredMachines func(commSeed uint64) bool
 
 var captureReinitHashesHook = func(w *world.World) map[string][]byte { return captureReinitHashes(w) }
 
